@@ -897,3 +897,95 @@ def tr_clicheck(inputs, model='amr', stdin=False, subproc=False):
             outs.append([['surplus output graphs']])
     t['outs'] = outs
     return t
+
+
+# ================================================================ streams (C09)
+import re as _re2  # noqa: E402
+
+
+def split_lines(s, keep):
+    """Split at LF / CRLF / CR only (what a text file iterator yields, before newline translation)."""
+    parts = _re2.split(r'(\r\n|\r|\n)', s)
+    lines = []
+    for i in range(0, len(parts), 2):
+        body = parts[i]
+        term = parts[i + 1] if i + 1 < len(parts) else ''
+        if body == '' and term == '' and i > 0:
+            break
+        lines.append(body + (term if keep else ''))
+    return lines
+
+
+def _lgraph(g):
+    j = ab.graph_to_json(g)
+    return {'top': j['top'], 'tr': j['tr'], 'epi': j['epi'], 'meta': j['meta']}
+
+
+def _outcome(c, f):
+    graphs = []
+    out = {'c': c, 'ok': True, 'exc': '', 'graphs': graphs}
+
+    def run():
+        for g in f():
+            graphs.append(_lgraph(g))
+    ok, r = guarded(run)
+    if not ok:
+        out['ok'] = False
+        out['exc'] = 'Hang' if isinstance(r, Hang) else excname(r)
+    return out
+
+
+def tr_stream(text, model='default'):
+    m = get_model(model)
+    codec = penman.PENMANCodec(model=m)
+    d = _clidir()
+    path = os.path.join(d, 'stream.txt')
+    with open(path, 'w', encoding='utf-8', newline='') as f:
+        f.write(text)
+    outs = [
+        _outcome('loads(str)', lambda: penman.loads(text, model=m)),
+        _outcome('iterdecode(str)', lambda: codec.iterdecode(text)),
+        _outcome('iterdecode(lines)', lambda: codec.iterdecode(split_lines(text, False))),
+        _outcome('iterdecode(lines with terminators)', lambda: codec.iterdecode(split_lines(text, True))),
+        _outcome('load(StringIO)', lambda: penman.load(io.StringIO(text, newline=None), model=m)),
+        _outcome('load(file)', lambda: penman.load(path, model=m, encoding='utf-8')),
+        _outcome('iterparse+interpret', lambda: (layout.interpret(t, m) for t in penman.iterparse(text))),
+    ]
+    return {'kind': 'stream', 'text': text, 'model': model, 'outs': outs}
+
+
+def tr_dumps(texts, model='default', indent=-1, compact=False):
+    """texts: one text per graph; they are decoded, then dumped in several ways and loaded back."""
+    m = get_model(model)
+    codec = penman.PENMANCodec(model=m)
+    gs = [codec.decode(s) for s in texts]
+    t = {'kind': 'dumps', 'model': model, 'texts': list(texts), 'graphs': [_lgraph(g) for g in gs], 'variants': []}
+
+    def back(how, text, loader):
+        o = _outcome(how, loader)
+        t['variants'].append({'how': how, 'text': text, 'back': {'ok': o['ok'], 'exc': o['exc'], 'graphs': o['graphs']}})
+    ok, s = guarded(penman.dumps, gs, model=m, indent=indent, compact=compact)
+    if ok:
+        back('dumps', s, lambda: penman.loads(s, model=m))
+    else:
+        t['variants'].append({'how': 'dumps', 'text': '', 'back': {'ok': False, 'exc': excname(s), 'graphs': []}})
+    encs = [codec.encode(g, indent=indent, compact=compact) for g in gs]
+    anymeta = any(g.metadata for g in gs[1:])
+    for name, sep in (('join:newline', '\n'), ('join:crlf', '\r\n\r\n'), ('join:blank+spaces', '\n  \n')) + (() if anymeta else (('join:space', ' '), ('join:none', ''))):
+        s2 = sep.join(encs)
+        back(name, s2, lambda s2=s2: penman.loads(s2, model=m))
+    d = _clidir()
+    path = os.path.join(d, 'dump.txt')
+    ok, r = guarded(penman.dump, gs, path, model=m, indent=indent, compact=compact, encoding='utf-8')
+    if ok:
+        with open(path, encoding='utf-8', newline='') as f:
+            s3 = f.read()
+        back('dump(file)+load(file)', s3, lambda: penman.load(path, model=m, encoding='utf-8'))
+    else:
+        t['variants'].append({'how': 'dump(file)', 'text': '', 'back': {'ok': False, 'exc': excname(r), 'graphs': []}})
+    sio = io.StringIO()
+    ok, r = guarded(penman.dump, gs, sio, model=m, indent=indent, compact=compact)
+    if ok:
+        s4 = sio.getvalue()
+        back('dump(StringIO)+load(StringIO)', s4, lambda: penman.load(io.StringIO(s4), model=m))
+    return t
